@@ -72,18 +72,20 @@ Definition pipe_guard (n : node) (t : task) (gs : list positive) : bool :=
     && (Z.of_nat (List.length newg) <=? gpu (n_idle n) + gpu (n_rel n))
   else is_task_allocatable_on_releasing_or_idle n t.
 
-(** where a pod currently sits: the node holding it with a non-Pipelined status,
-    else (a pod nominated earlier in the cycle can itself be chosen as a victim)
-    the node holding its nomination *)
+(** where a pod currently sits, as the task object's NodeName says: the node of its
+    latest nomination if it has one (after [evict; nominate elsewhere] the pod has a
+    terminating copy on its old node and a nominated copy on the new one, and the task
+    points at the new one: a later eviction of the same pod by another statement of the
+    cycle hits the nomination), else the node holding it *)
 Definition holds (p : positive) (pipelined : bool) (kn : positive * node) : bool :=
   match alookup p (n_pods (snd kn)) with
   | Some t => Bool.eqb (status_eqb (t_status t) Pipelined) pipelined
   | None => false
   end.
 Definition holder (ns : amap node) (p : positive) : option positive :=
-  match find (holds p false) ns with
+  match find (holds p true) ns with
   | Some kn => Some (fst kn)
-  | None => match find (holds p true) ns with
+  | None => match find (holds p false) ns with
             | Some kn => Some (fst kn)
             | None => None
             end
@@ -214,12 +216,23 @@ Fixpoint nominations_within (ts : list tinfo) (ns : amap node) (cs : list call) 
                  | None => true
                  end
   end.
+(** a pod is evicted, nominated elsewhere and evicted again by a later statement of the
+    same cycle (two Cache.Evict calls for one pod; every single commit evicts it once) *)
+Fixpoint evicted_again_go (seen : list positive) (cs : list call) : bool :=
+  match cs with
+  | [] => false
+  | CEvict p _ _ :: r => existsb (Pos.eqb p) seen || evicted_again_go (p :: seen) r
+  | _ :: r => evicted_again_go seen r
+  end.
+Definition evicted_again (cs : list call) : bool := evicted_again_go [] cs.
 (** flag 1: the device-count guard quirk manifested (known finding C14-device-guard);
     flag 100 (an observation, never an alarm): some nomination of the cycle exceeds
-    idle + releasing of its node in the committed state *)
+    idle + releasing of its node in the committed state; flag 110 (an observation):
+    a pod is evicted a second time in the cycle after having been nominated elsewhere *)
 Definition cycle_flags (k : ccase) : list nat :=
   (if snd (cycle_result k) then [1%nat] else [])
-  ++ (if nominations_within (c_tasks k) (c_nodes k) (c_calls k) then [] else [100%nat]).
+  ++ (if nominations_within (c_tasks k) (c_nodes k) (c_calls k) then [] else [100%nat])
+  ++ (if evicted_again (c_calls k) then [110%nat] else []).
 Definition cycle_run_flags (cs : list (nat * ccase)) : list (nat * list nat) :=
   filter (fun p => negb (Nat.eqb (List.length (snd p)) 0)) (map (fun c => (fst c, cycle_flags (snd c))) cs).
 
